@@ -19,9 +19,11 @@ use std::fmt::Write as _;
 use std::fs;
 use syn::{Block, Expr, ImplItem, Item, Stmt};
 
+mod aut;
+
 // ---------------------------------------------------------------- helpers
 
-fn toks<T: ToTokens>(t: &T) -> String {
+pub(crate) fn toks<T: ToTokens>(t: &T) -> String {
     let s = t.to_token_stream().to_string();
     let s = s.split_whitespace().collect::<Vec<_>>().join(" ");
     // memory orderings are reported separately (Gen_Sites.v); shapes do not depend on them
@@ -36,11 +38,11 @@ fn coq_str(s: &str) -> String {
     format!("\"{}\"", s.replace('"', "\"\""))
 }
 
-fn is_cfg_verif(attrs: &[syn::Attribute]) -> bool {
+pub(crate) fn is_cfg_verif(attrs: &[syn::Attribute]) -> bool {
     attrs.iter().any(|a| toks(a).contains("kanal_verif"))
 }
 
-fn expr_attrs(e: &Expr) -> &[syn::Attribute] {
+pub(crate) fn expr_attrs(e: &Expr) -> &[syn::Attribute] {
     match e {
         Expr::If(x) => &x.attrs,
         Expr::Call(x) => &x.attrs,
@@ -162,7 +164,7 @@ struct Sk {
     sites: Vec<(String, String, Vec<String>, Vec<String>, usize)>,
 }
 
-fn ordering_of(e: &Expr) -> Option<String> {
+pub(crate) fn ordering_of(e: &Expr) -> Option<String> {
     let s = e.to_token_stream().to_string().split_whitespace().collect::<Vec<_>>().join(" ");
     for o in ["Relaxed", "Release", "Acquire", "AcqRel", "SeqCst"] {
         if s == format!("Ordering :: {}", o) || s == o || s.ends_with(&format!(":: {}", o)) {
@@ -724,6 +726,35 @@ fn coq_ty(t: &syn::Type) -> String {
 
 fn main() {
     let args: Vec<String> = std::env::args().collect();
+    if args.len() == 3 && args[1] == "--aut" {
+        // debugging aid: print the canonical automata of the protocol functions
+        let mut fns = vec![];
+        for f in ["mutex.rs", "backoff.rs", "signal.rs"] {
+            let text = fs::read_to_string(format!("{}/{}", args[2], f)).unwrap();
+            aut::collect(f, &syn::parse_file(&text).unwrap(), &mut fns);
+        }
+        let called = aut::called_names(&fns);
+        for f in &fns {
+            if !f.exported && called.contains(&f.name) {
+                continue;
+            }
+            let c = aut::automaton(&fns, f);
+            if !c.has_protocol_event {
+                continue;
+            }
+            println!("== {}", f.qname);
+            for l in &c.lines {
+                println!("   {}", l);
+            }
+            for (i, st, ss) in &c.roles {
+                println!("   role {} {} <- {}", i, st, ss.iter().map(|s| format!("{}:{} {}.{} {}{}", s.file, s.line, s.field, s.kind, s.ord, s.ord2.as_ref().map(|x| format!("/{}", x)).unwrap_or_default())).collect::<Vec<_>>().join(" | "));
+            }
+            for u in &c.unsupported {
+                println!("   UNSUPPORTED {}", u);
+            }
+        }
+        return;
+    }
     if args.len() != 3 {
         eprintln!("usage: kx <repo/src> <outdir>");
         std::process::exit(2);
@@ -756,36 +787,59 @@ fn main() {
     let mut site_lines: Vec<String> = vec![];
     let mut skel_rows: Vec<(String, Vec<String>)> = vec![];
     let mut lock_rows: Vec<(String, Vec<String>)> = vec![];
-    for f in ["mutex.rs", "backoff.rs", "signal.rs"] {
-        let mut funcs = vec![];
-        collect_funcs(&parsed[f], &mut funcs);
-        for fun in &funcs {
-            if f == "backoff.rs" && !["spin_cond", "get_parallelism", "yield_now", "yield_now_std", "sleep"].contains(&fun.name.as_str()) {
+    // the protocol functions: canonical event automata (see aut.rs); one role per atomic transition
+    {
+        let mut fns = vec![];
+        for f in ["mutex.rs", "backoff.rs", "signal.rs"] {
+            aut::collect(f, &parsed[f], &mut fns);
+        }
+        let called = aut::called_names(&fns);
+        for f in &fns {
+            if !f.exported && called.contains(&f.name) {
+                continue; // a private helper: inlined where it is called
+            }
+            let c = aut::automaton(&fns, f);
+            if !c.has_protocol_event {
                 continue;
             }
-            let sk = skeleton(fun, Mode::Full);
-            let q = format!("{}.{}", f.trim_end_matches(".rs"), fun.name);
-            if f != "backoff.rs" {
-                for (i, (m, r, ops, ords, line)) in sk.sites.iter().enumerate() {
-                    site_lines.push(format!("{} {} {} {} {}", f, line, q, i, m));
-                    let o1 = ords.get(0).cloned().unwrap_or("Relaxed".into());
-                    let o2 = match ords.get(1) {
-                        Some(o) => format!("(Some {})", o),
-                        None => "None".into(),
-                    };
-                    site_rows.push(format!(
-                        "  mkSite {} {} {} {} [{}] {} {}",
-                        coq_str(&q),
-                        i,
-                        coq_str(r),
-                        coq_str(m),
-                        ops.iter().map(|s| coq_str(s)).collect::<Vec<_>>().join("; "),
-                        o1,
-                        o2
-                    ));
-                }
+            let mut lines = c.lines.clone();
+            for u in &c.unsupported {
+                lines.push(format!("UNSUPPORTED {}", u));
             }
-            skel_rows.push((q, sk.lines));
+            for (i, stem, ss) in &c.roles {
+                let mut o1 = ss[0].ord.clone();
+                let mut o2 = ss[0].ord2.clone();
+                for x in ss.iter().skip(1) {
+                    o1 = aut::meet(&o1, &x.ord);
+                    o2 = match (&o2, &x.ord2) {
+                        (Some(a), Some(b)) => Some(aut::meet(a, b)),
+                        _ => None,
+                    };
+                }
+                for x in ss {
+                    site_lines.push(format!("{}.rs {} {} {} {}", x.file, x.line, f.qname, i, x.kind));
+                }
+                let o2s = match &o2 {
+                    Some(o) => format!("(Some {})", o),
+                    None => "None".into(),
+                };
+                // operands in canonical form: what stands between the parentheses of the role's label
+                let ops: Vec<String> = match (stem.find('('), stem.rfind(')')) {
+                    (Some(a), Some(b)) if b > a + 1 => stem[a + 1..b].split(',').map(|x| x.trim().to_string()).collect(),
+                    _ => vec![],
+                };
+                site_rows.push(format!(
+                    "  mkSite {} {} {} {} [{}] {} {}",
+                    coq_str(&f.qname),
+                    i,
+                    coq_str(&ss[0].field),
+                    coq_str(&ss[0].kind),
+                    ops.iter().map(|s| coq_str(s)).collect::<Vec<_>>().join("; "),
+                    o1,
+                    o2s
+                ));
+            }
+            skel_rows.push((f.qname.clone(), lines));
         }
     }
     for f in ["lib.rs", "future.rs", "internal.rs"] {
